@@ -14,6 +14,7 @@ import logging
 import marshal
 import math
 import os
+import re
 import sys
 import tokenize as tk
 
@@ -38,6 +39,7 @@ from pycel.lib.function_info import func_status_msg
 
 
 ADDR_FUNCS_NAMES = '_R_', '_C_', '_REF_'
+ADDR_EMIT_RE = re.compile(r'^_[RC]_\("([^"]+)"\)$')
 
 # Verification hook (guarded by the environment variable PYCEL_VERIF): when a
 # harness sets this to a callable, every read a compiled formula makes through
@@ -306,10 +308,18 @@ class OperatorNode(ASTNode):
                           )
         elif op == ':':
             # range union
-            ss = '_R_' + (f'(str({args[0].emit} ** {args[1].emit}))'
-                          .replace('_R_', '_REF_')
-                          .replace('_C_', '_REF_')
-                          )
+            addrs = tuple(ADDR_EMIT_RE.match(arg.emit) for arg in args)
+            union = all(addrs) and (AddressRange.create(addrs[0].group(1)) **
+                                    AddressRange.create(addrs[1].group(1)))
+            if union and union not in ERROR_CODES:
+                # both are written addresses, so the union is known now,
+                # and can be declared as what this formula needs
+                ss = ('_R_("{}")' if union.is_range else '_C_("{}")').format(union)
+            else:
+                ss = '_R_' + (f'(str({args[0].emit} ** {args[1].emit}))'
+                              .replace('_R_', '_REF_')
+                              .replace('_C_', '_REF_')
+                              )
         else:
             if op != ',':
                 op = ' ' + op
